@@ -1,9 +1,36 @@
 // C01 -- end-to-end integrity: nothing is written to a tun device that was not read from a peer's.
 #include "tunnel_common.h"
+#include "session_common.h"
 using namespace hz;
+
+// Second shape (one case in six): the real server with a scripted, conforming sender whose upstream history contains total losses
+// of seven consecutive packets (so that a 3-bit sequence number comes round again) and crafted packet contents; every packet the
+// server writes to its tun device must be one the sender completed.
+static CaseResult wrap_case(Tape &t)
+{
+	CaseResult r;
+	ses::Profile P;
+	P.w_ping = 5; P.w_up = 9; P.w_offer = 2; P.w_adv = 2; P.w_nreq = 0; P.w_redeliver = 2; P.w_freeze = 1;
+	P.max_sessions = 1; P.max_body = 600; P.max_actions = 80; P.wrap_games = true;
+	ses::Run R;
+	ses::run_sessions(t, P, R);
+	r.render = "scripted sender with sequence-number wrap: " + R.render;
+	if (sim::W.livelock) r.fail("C01:livelock", "simulation did not make progress");
+	if (!R.up) return r;
+	std::vector<mon::TunEv> wr = R.tm.writes_of(R.s->srv->idx);
+	for (auto &w : wr) {
+		bool found = false;
+		for (auto &pp : R.peers) { for (auto &pkt : pp->up_completed) if (pkt == w.data) found = true; if (pp->up_active && pp->up_cur_pkt == w.data) found = true; }
+		if (!found) { r.fail("C01:fabricated-after-wrap", scn::fmt("the server wrote a %zu-byte packet to its tun device that the scripted sender never sent: %s", w.data.size(), hexs(w.data, 48).c_str()) + "\n" + r.render); break; }
+	}
+	r.nontrivial = R.n_wrap >= 1;
+	r.cls("scripted-sender"); if (R.n_wrap) r.cls("sequence-number-wrap-with-crafted-packet");
+	return r;
+}
 
 static CaseResult run_case(Tape &t)
 {
+	if (t.chance(1, 6)) return wrap_case(t);
 	CaseResult r;
 	tun::Run R;
 	tun::Mode m = t.chance(1, 5) ? tun::CLEAN : tun::FAULTY;
